@@ -744,6 +744,21 @@ func ruleOwnWrap(r *Run, rels []string) {
 						continue
 					}
 					// on every path: the call's block dominates every return, or sits in a whole range loop
+					if sliceField[f] {
+						whole := false
+						for _, l := range rangeIndexLoops(fn) {
+							if !l.Blocks[call.Block()] {
+								continue
+							}
+							if fl, base, ok := loadOfField(l.X); ok && fl == f && base == ssa.Value(fn.Params[0]) && len(l.earlyExits()) == 0 && mustPassThrough(l.Body, l.Header, call.Block()) {
+								whole = true
+							}
+						}
+						if !whole {
+							good = false
+							o.Fail(r.pos(call.Pos()), "%s() is not called for every element of %s (the loop over the field can be left early or skips elements)", m, f)
+						}
+					}
 					if !sliceField[f] {
 						for _, ret := range returnsOf(fn) {
 							if !call.Block().Dominates(ret.Block()) {
